@@ -660,6 +660,26 @@ def run(ctx, col: Collector):
                 if isinstance(n, ast.Call) and isinstance(n.func, ast.Name) and n.func.id in ('sorted', 'reversed', 'set', 'frozenset') \
                         and n.args and norm(n.args[0]).startswith('self.'):
                     bad_order.append((fn, n))
+        # a collection attribute of the parser / database is bound once (in __init__) and only grown afterwards: re-binding it (`self.refs = a + self.refs`)
+        # replaces source order by construction order
+        init_lists = set()
+        for ci_ in (idx.cls('pydbml.parser.parser', 'PyDBMLParser'), db):
+            im = ci_.methods.get('__init__')
+            if im is not None:
+                for st_ in ast.walk(im.node):
+                    tgt_ = st_.targets[0] if isinstance(st_, ast.Assign) and len(st_.targets) == 1 else (st_.target if isinstance(st_, ast.AnnAssign) else None)
+                    if tgt_ is not None and isinstance(tgt_, ast.Attribute) and isinstance(getattr(st_, 'value', None), ast.List):
+                        init_lists.add(norm(tgt_))
+        for fn in [m.node for m in db.methods.values() if m.node.name != '__init__'] + [pb.node, bd.node]:
+            for n in ast.walk(fn):
+                if isinstance(n, (ast.Assign, ast.AugAssign)):
+                    tgts_ = n.targets if isinstance(n, ast.Assign) else [n.target]
+                    for t_ in tgts_:
+                        if isinstance(t_, ast.Attribute) and norm(t_) in init_lists and not (isinstance(n, ast.AugAssign) and isinstance(n.op, ast.Add)):
+                            v_ = n.value
+                            grows = isinstance(v_, ast.BinOp) and isinstance(v_.op, ast.Add) and norm(v_.left) == norm(t_)
+                            if not grows:
+                                bad_order.append((fn, n))
         ctl_hits = [b for b in bad_order if b[0] is ctl.body[0]]
         real = [b for b in bad_order if b[0] is not ctl.body[0]]
         if len(ctl_hits) != 2:
@@ -689,6 +709,26 @@ def run(ctx, col: Collector):
                       f'keyword {texts[0]!r} is matched in any letter case',
                       f'keyword {texts[0]!r} ({g.file}:{g.line}) is matched case-sensitively while all other keywords are caseless: the same '
                       f'declaration in another letter case is rejected', node=_N(g), file=g.file)
+        # keyword sets written as a regular expression: the value handed on is the text as written, so a case-insensitive pattern stores the author's capitalisation
+        for g in gm.reachable():
+            if g.kind != 'regex':
+                continue
+            v = gt.vocab_of(g)
+            if not v or not any(c.isalpha() for t, _, _ in v for c in t):
+                continue
+            key = (g.module, g.line, tuple(t for t, _, _ in v))
+            if key in seen:
+                continue
+            seen.add(key)
+            n += len(v)
+            cons = f'{g.module.split(".")[-1]}:regex:{v[0][0]!r}@{g.var or g.line}'
+            if all(cl for _, cl, _ in v):
+                col.bad('C01-case', cons, f'the keyword set {[t for t, _, _ in v]} ({g.file}:{g.line}) is matched by a case-insensitive regular expression, which returns the text '
+                        f'as written: `CASCADE` and `cascade` are stored as different values, so the same declaration in another letter case gives a different model '
+                        f'(and two copies of one reference no longer compare equal)', node=_N(g), file=g.file)
+            else:
+                col.bad('C01-case', cons, f'the keyword set {[t for t, _, _ in v]} ({g.file}:{g.line}) is matched case-sensitively while all other keywords are caseless',
+                        node=_N(g), file=g.file)
         col.floor('C01-case', 'keyword literals', n, 40)
         # identifier token: bare word over [A-Za-z0-9_] or double-quoted single-line string
         name = gm.var('generic', 'name')
@@ -945,6 +985,38 @@ def run(ctx, col: Collector):
                       'an indexes block holds one or more index definitions', 'the indexes block does not repeat the index rule 1..many times',
                       node=_N(x), file=x.file)
             n += 1
+        # a component that can occur several times and is consumed as a collection must accumulate its matches (list_all_matches / trailing *):
+        # a plain results name keeps only the LAST match, so everything declared in earlier occurrences is dropped silently
+        seen_acc = set()
+        for g in gm.action_nodes():
+            for a in g.actions:
+                if a.kind != 'func' or a.node is None:
+                    continue
+                uses = use_kinds(a)
+                list_fields = set()
+                for c in ast.walk(a.node):
+                    if isinstance(c, ast.Call) and isinstance(c.func, ast.Name) and c.func.id.endswith('Blueprint'):
+                        ci = idx.class_of(a.module, c.func)
+                        if ci is not None:
+                            for fname_, ann in getattr(ci, 'fields', {}).items() if isinstance(getattr(ci, 'fields', None), dict) else []:
+                                if 'List' in str(ann) or 'list' in str(ann):
+                                    list_fields.add(fname_)
+                for nm, us in uses.items():
+                    as_collection = any(k == 'iter' for k, _ in us)
+                    if not as_collection:
+                        continue
+                    if gt.mult(g, nm)[1] < 2:
+                        continue
+                    for x in named_nodes(g, nm):
+                        key = (a.name, nm, x.module, x.line)
+                        if key in seen_acc:
+                            continue
+                        seen_acc.add(key)
+                        n += 1
+                        col.check(bool(x.list_all), 'C01-mult', f'{a.name}:{nm}:accumulates@{x.module.split(".")[-1]}:{x.var or x.line}',
+                                  f'`{nm}` keeps all its matches', f'`{nm}` can be matched several times inside `{g.var or a.name}` and {a.name} consumes it as a collection, '
+                                  f'but the results name at {x.file}:{x.line} does not accumulate (no list_all_matches / `*`): only the last occurrence survives, '
+                                  f'everything declared in the earlier ones is dropped', node=_N(x), file=x.file)
         col.floor('C01-mult', 'multiplicity rows', n, 35)
     guarded(col, 'C01-mult', 'multiplicities', multiplicity)
 
